@@ -208,7 +208,7 @@ def run_symbolic(spec):
                         fz = getattr(scn, "witness_atoms", None)
                         env2 = _simplify_witness(tr, leaf, env, formula, nexp, m)
                         res["violations"].append(dict(name=name, env=[str(v) for v in env2], meta=meta, kind="obligation",
-                                                      cell=[str(v) for v in leaf.env], unrepresentable=any(v.denominator > MAXDEN for v in env2)))
+                                                      cell=[str(v) for v in leaf.env], unrepresentable=any(v.denominator > MAXDEN for v in env2[:nexp])))
             elif leaf.kind == "raise":
                 fnm, line, file = _where(leaf.tb)
                 exc = type(leaf.exc).__name__
